@@ -21,7 +21,7 @@ import (
 	"verif/vk"
 )
 
-const c12Rule = "streams = junk msg junk ... msg tail (messages 30 B - 20 kB serialised by fixwire, data fields with SOH and '10=' look-alikes inside the counted body, junk without a BeginString marker, short or in runs sized around multiples of the 4096-byte buffer) or fragment soups of FIX delimiters; partitions = 1 byte, fixed sizes, generated split points aimed inside '8=', '9=', length digits, '10=' and checksum, chunks larger than the 4096-byte buffer, reads that return nothing and no error between chunks, EOF delivered with data; non-trivial = >=2 messages and a split inside a tag/length/checksum, or a message larger than the buffer; distinct = distinct (stream, partition)"
+const c12Rule = "streams = junk msg junk ... msg tail (messages 30 B - 20 kB serialised by fixwire, BodyLength plain or zero-padded, data fields with SOH and '10=' look-alikes inside the counted body, junk without a BeginString marker, short or in runs sized around multiples of the 4096-byte buffer) or fragment soups of FIX delimiters; partitions = 1 byte, fixed sizes, generated split points aimed inside '8=', '9=', length digits, '10=' and checksum, chunks larger than the 4096-byte buffer, reads that return nothing and no error between chunks, EOF delivered with data; non-trivial = >=2 messages and a split inside a tag/length/checksum, or a message larger than the buffer; distinct = distinct (stream, partition)"
 
 func c12() *stats.Collector {
 	c := stats.Get("C12")
@@ -215,7 +215,9 @@ func genStreamMessage(t *rapid.T) []byte {
 			rest = append(rest, fixwire.Field{Tag: rapid.IntRange(1, 999).Draw(t, "tag"), Value: []byte(rapid.StringMatching(`[A-Za-z0-9=]{0,12}`).Draw(t, "v"))})
 		}
 	}
-	return fixwire.Build(rapid.SampledFrom([]string{"FIX.4.2", "FIXT.1.1", "FIX.4.0"}).Draw(t, "begin"), rest)
+	// BodyLength as most encoders write it, or zero-padded to a fixed width
+	width := rapid.SampledFrom([]int{0, 0, 0, 4, 6, 9}).Draw(t, "bodylength-width")
+	return fixwire.BuildPadded(rapid.SampledFrom([]string{"FIX.4.2", "FIXT.1.1", "FIX.4.0"}).Draw(t, "begin"), rest, width)
 }
 
 var soupFragments = [][]byte{[]byte("8="), []byte("8=FIX.4.2\x01"), []byte("\x019="), []byte("9="), []byte("\x0110="), []byte("10="), {1}, []byte("35=D\x01"), []byte("0"), []byte("5"), []byte("12"), []byte("000\x01"),
